@@ -123,6 +123,14 @@ CHECKS["C10"] = (
     "5/C10",
 )
 
+CHECKS["C12"] = (
+    "PipelineOps.tla + Pipeline.tla + TracePipeline.tla",
+    "TLC: the reconcile command as a state machine (read, label, reject | solve, dump) over every case of a bounded domain (tree shapes x ancestor naming patterns colliding with O#/S# x algorithm x with/without syntenies) with the README's naming contract, rejection rule and the code-shaped label rule as invariants; every case and random documented-format inputs run through the real command line in-process (plus true subprocesses), each written line parsed back, priced and drawn, judged by a TLA+ trace spec",
+    "Model checking of the pipeline machine and its naming contract plus trace validation of real invocations (names, exit status, printed minimum = cost of every written solution, all superset of any, draw accepts every line).",
+    "Trusts TLC, PipelineOps.tla and the document projection of lib/docproj.py; draw runs with a stub TeX measurer (no TeX engine here); inputs <= 4-5 object leaves.",
+    "5/C12",
+)
+
 NOT_YET = {}
 
 
